@@ -1050,3 +1050,31 @@ def no_escape_from_finally(ctx, clause, modules=('array', 'raggedarray', 'datadi
                f'classifier verified on its embedded positive example)')
     ctx.floor(f'finally blocks scanned', nfin, 1)
     return nfin
+
+
+def ragged_opener_mode_agreement(ctx, clause):
+    """R-SIB: a RaggedArray method that takes `accessmode` and opens the sub-arrays hands the same mode expression to
+    every opener call — values and indices are opened alike.  (Seeded C10-14: only the indices opener got the mode; in
+    an `accessmode='r'` context an append then writes the values through the still writeable values map and fails on
+    the index row.)"""
+    RA = ctx.repo.cls('RaggedArray')
+    A = ctx.repo.cls('Array')
+    openers = {g for g in A.all_funcs() if g.name in ('_open_array', 'open_array')}
+    n = 0
+    for f in RA.all_funcs():
+        if 'accessmode' not in f.params and 'accessmode' not in f.kwonly:
+            continue
+        calls = [node for node, cal in ctx.E.callees(f) if cal in openers and isinstance(node, ast.Call)]
+        if len(calls) < 2:
+            continue
+        n += 1
+        modes = []
+        for c_ in calls:
+            a = get_arg(c_, 0, 'accessmode')
+            modes.append(norm(a) if a is not None else '<default>')
+        ctx.decide(len(set(modes)) == 1, 'R-SIB', clause, f, calls[0], f'opener-mode-agreement::{f.name}',
+                   f'{f.qualname}: all {len(calls)} sub-array opener calls receive the same access mode ({modes[0]})',
+                   detail=f'sub-arrays are opened with different modes {modes}: one of values/indices follows the requested '
+                          f'mode, the other the handle\'s own — in a read-only context one file is still written')
+    ctx.floor('RaggedArray methods opening both sub-arrays with a mode', n, 1)
+    return n
